@@ -54,6 +54,7 @@ def write(res):
             "bounded_contract_evaluations": bounded.get("contract_evaluations"),
             "bounded_wall_s": bounded.get("wall_s"),
             "bounded_notes": bounded.get("notes"),
+            "bounded_carried_families": bounded.get("carried"),
             "bounded_interpreter": bounded.get("interpreter"),
         })
     if has_proof:
